@@ -872,6 +872,56 @@ func (m modelSpec) leakArgsIncEnv(env, cores map[string]string, modes func(v str
 	return a
 }
 
+// nestIncEnv turns an include-env case into a two-level one: compose.yaml includes mod/compose.yaml (environment:
+// mod/.env), which includes mod/inner/compose.yaml (environment: inner/inner.env or inner/.env) where the resources are.
+// Every variable of the include's env file goes to the middle file, the inner one, or both (the middle value wins; the
+// shadowed inner value, a canary of its own, must appear nowhere).  The innermost model is resolved three times.
+func nestIncEnv(a leakArgs, pick func(n int) int, count func(string)) leakArgs {
+	txt, ok := a.RawFiles["mod/.env"]
+	if !ok {
+		txt = a.RawFiles["mod/mod.env"]
+	}
+	_ = txt
+	main := core.DecodeValRaw(a.Files["compose.yaml"]).(map[string]any)
+	main["include"] = []any{"mod/compose.yaml"}
+	innerLong := pick(2) == 0
+	mid := tree{}
+	if innerLong {
+		mid["include"] = []any{tree{"path": "inner/compose.yaml", "env_file": "inner/inner.env"}}
+	} else {
+		mid["include"] = []any{"inner/compose.yaml"}
+	}
+	var mb, ib strings.Builder
+	shadowN := 30000
+	for _, v := range sortedKeys(a.IncEnv) {
+		q, _ := dotenvQuote(a.IncEnv[v])
+		switch pick(3) {
+		case 0:
+			mb.WriteString(v + "=" + q + "\n")
+			count("leak-nested-var-middle")
+		case 1:
+			ib.WriteString(v + "=" + q + "\n")
+			count("leak-nested-var-inner")
+		default:
+			mb.WriteString(v + "=" + q + "\n")
+			shadowN++
+			sv, sc := canary(shadowN, c20Deco[0])
+			ib.WriteString(v + "='" + sv + "'\n")
+			a.IncEnv["shadow:"+v], a.IncCores["shadow:"+v] = sv, sc
+			count("leak-nested-var-both")
+		}
+	}
+	a.Files["mod/inner/compose.yaml"] = a.Files["mod/compose.yaml"]
+	a.Files["compose.yaml"], a.Files["mod/compose.yaml"] = enc(main), enc(mid)
+	a.RawFiles = map[string]string{"mod/.env": mb.String()}
+	if innerLong {
+		a.RawFiles["mod/inner/inner.env"] = ib.String()
+	} else {
+		a.RawFiles["mod/inner/.env"] = ib.String()
+	}
+	return a
+}
+
 func sortedTreeKeys(m tree) []string {
 	l := make([]string, 0, len(m))
 	for k := range m {
@@ -932,12 +982,19 @@ func genLeak(ctx *core.Ctx) {
 						for v := 0; v < 4; v++ {
 							mode := mode
 							ctx.Count("leak-exh-kinds-include-env")
-							ctx.Add("c20.leak", m.leakArgsIncEnv(env, cores, func(vn string) int {
+							modes := func(vn string) int {
 								if mode == 3 { // mixed: by position
 									return int(vn[len(vn)-1]-'0') % 3
 								}
 								return mode
-							}, v&1 == 1, v&2 == 2, nil, ctx.Count))
+							}
+							ctx.Add("c20.leak", m.leakArgsIncEnv(env, cores, modes, v&1 == 1, v&2 == 2, nil, ctx.Count))
+							if mode != 0 {
+								k := n + v + mode
+								ctx.Count("leak-exh-kinds-include-env-nested")
+								ctx.Add("c20.leak", nestIncEnv(m.leakArgsIncEnv(env, cores, modes, v&1 == 1, v&2 == 2, nil, func(string) {}),
+									func(n int) int { k++; return k % n }, ctx.Count))
+							}
 						}
 					}
 				}
@@ -957,7 +1014,12 @@ func genLeak(ctx *core.Ctx) {
 		ctx.Count("leak-random-" + layout)
 		if layout == "include-env" {
 			r := ctx.Rng
-			ctx.Add("c20.leak", m.leakArgsIncEnv(env, cores, func(string) int { return r.Intn(3) }, r.Intn(2) == 0, r.Intn(2) == 0, r, ctx.Count))
+			a := m.leakArgsIncEnv(env, cores, func(string) int { return r.Intn(3) }, r.Intn(2) == 0, r.Intn(2) == 0, r, ctx.Count)
+			if r.Intn(3) == 0 {
+				ctx.Count("leak-random-include-env-nested")
+				a = nestIncEnv(a, r.Intn, ctx.Count)
+			}
+			ctx.Add("c20.leak", a)
 			continue
 		}
 		ctx.Add("c20.leak", m.leakArgs(env, cores, layout))
